@@ -189,6 +189,8 @@ impl DiagnosticMessage for Error {
                     }
 
                     if token == &Token::RQuery {
+                        // A boundary marker, not a physical character: it has no width.
+                        let span = Span::new(*start, *start);
                         return vec![
                             Label::primary("unexpected end of query path", span),
                             Label::context(
